@@ -233,6 +233,10 @@ func runC02(a *A) {
 				if isFieldOf(t, "window.Watermark", "currentWatermark") {
 					return "wm"
 				}
+				// read through the watermark's own accessor (GetCurrentWatermark: lock, return the field)
+				if f := a.accessorField(t); f != nil && f == a.FieldOf(a.Named("window", "Watermark"), "currentWatermark") {
+					return "wm"
+				}
 				return ""
 			},
 			Eval: func(env *Env) (Tri, string) { return evalFuncRet(env, fn, nil) },
@@ -708,6 +712,42 @@ func (a *A) ruleLateUpdateIdentity() {
 						}
 					}
 				}
+				// the slot of an entry that was picked in a search and carried in a variable (`info = e; break` …
+				// `use(info.slot)`): one leaf per way the entry came about, "not found" (nil) aside
+				if ld, ok := lf.v.(*ssa.UnOp); ok && ld.Op == token.MUL {
+					if fa, ok := ld.X.(*ssa.FieldAddr); ok && fieldVarOf(fa).Name() == "slot" {
+						if ephi, isPhi := fa.X.(*ssa.Phi); isPhi {
+							allOK, some := true, false
+							for _, el := range phiLeafEdges(ephi) {
+								if k, isK := el.v.(*ssa.Const); isK && k.Value == nil {
+									continue
+								}
+								some = true
+								et := TermOf(el.v, nil).String()
+								if !strings.Contains(et, "triggeredWindows") || el.from == nil {
+									allOK = false
+									continue
+								}
+								var into *ssa.BasicBlock
+								for _, sc := range el.from.Succs {
+									into = sc
+								}
+								var egs []Guard
+								if len(el.from.Succs) == 1 {
+									egs = guardsAtEnd(el.from, into)
+								} else {
+									egs = guardsOf(el.from)
+								}
+								if !containsHolds(egs, et+".slot") {
+									allOK = false
+								}
+							}
+							if allOK && some {
+								continue
+							}
+						}
+					}
+				}
 				lt := TermOf(lf.v, nil)
 				if !(lt.Kind == "field" && lt.Field.Name() == "slot" && strings.Contains(lt.String(), "triggeredWindows")) {
 					okArg = false
@@ -774,7 +814,11 @@ func (a *A) ruleLateUpdateIdentity() {
 			}
 		}
 		j := strings.Join(terms, " ")
-		if strings.Contains(j, "Slot.Start") && strings.Contains(j, "Slot.End") && strings.Contains(j, "p1[]") {
+		// the slot's bounds read as fields, or through the slot's own accessors (WindowStart/WindowEnd,
+		// GetStartTime/GetEndTime), of the slot of a row of the batch
+		hasStart := strings.Contains(j, "Slot.Start") || strings.Contains(j, "WindowStart(") || strings.Contains(j, "GetStartTime(")
+		hasEnd := strings.Contains(j, "Slot.End") || strings.Contains(j, "WindowEnd(") || strings.Contains(j, "GetEndTime(")
+		if hasStart && hasEnd && strings.Contains(j, "p1[]") && strings.Contains(j, "Slot") {
 			ok = true
 		}
 	})
@@ -1096,4 +1140,54 @@ func (a *A) newWatermarkHelperFeedsFarFuture(add *ssa.Function) (ssa.Instruction
 		}
 	})
 	return bad, n
+}
+
+
+// accessorField: t is a call of a method of the module that does nothing but hand out one field of its receiver
+// (possibly under the receiver's lock): every value it can return is a load of that field. Returns the field.
+func (a *A) accessorField(t *Term) *types.Var {
+	if t == nil || t.Kind != "call" || len(t.Args) != 1 {
+		return nil
+	}
+	var fn *ssa.Function
+	for _, f := range a.ModFuncs {
+		if f.Signature.Recv() != nil && f.Signature.Params().Len() == 0 && f.Signature.Results().Len() == 1 && fname(f) == t.Name {
+			fn = f
+		}
+	}
+	if fn == nil || fn.Blocks == nil {
+		return nil
+	}
+	var field *types.Var
+	for _, l := range returnLeaves(fn, 0) {
+		ld, ok := l.(*ssa.UnOp)
+		if !ok || ld.Op != token.MUL {
+			return nil
+		}
+		fa, ok := ld.X.(*ssa.FieldAddr)
+		if !ok || fa.X != ssa.Value(fn.Params[0]) {
+			return nil
+		}
+		f := fieldVarOf(fa)
+		if field != nil && f != field {
+			return nil
+		}
+		field = f
+	}
+	// nothing else is written there
+	writes := false
+	allInstrs(fn, func(in ssa.Instruction) {
+		switch x := in.(type) {
+		case *ssa.Store:
+			if _, local := x.Addr.(*ssa.Alloc); !local {
+				writes = true
+			}
+		case *ssa.MapUpdate, *ssa.Send:
+			writes = true
+		}
+	})
+	if writes {
+		return nil
+	}
+	return field
 }
